@@ -139,7 +139,11 @@ void erode(numpy::aligned_array<T> res, const numpy::aligned_array<T> array, con
     filter_iterator<T> filter(array.raw_array(), Bc.raw_array(), ExtendNearest, is_bool(T()));
     const numpy::index_type N2 = filter.size();
     T* rpos = res.data();
-    if (!N2) return;
+    if (!N2) {
+        // empty structuring element: the minimum over no samples is the largest value
+        std::fill(rpos, rpos + N, std::numeric_limits<T>::max());
+        return;
+    }
 
     for (numpy::index_type i = 0; i != N; ++i, ++rpos, filter.iterate_both(iter)) {
         T value = std::numeric_limits<T>::max();
@@ -168,16 +172,19 @@ void fast_binary_dilate_erode_2d(numpy::aligned_array<bool> res, const numpy::al
     const numpy::index_type Cy = By/2;
     const numpy::index_type Cx = Bx/2;
 
+    // Offsets are applied exactly as in the generic (filter_iterator based)
+    // code path: coordinates falling outside the image are clamped to the
+    // nearest border pixel; erosion gathers from the (clamped) neighbour,
+    // dilation scatters to the (clamped) neighbour.
     std::vector<numpy::index_type> positions;
     for (numpy::index_type y = 0; y != By; ++y) {
         for (numpy::index_type x = 0; x != Bx; ++x) {
             if (!Bc.at(y,x)) continue;
             const numpy::index_type dy = y-Cy;
             const numpy::index_type dx = x-Cx;
-            if (t_abs(dy) >= Ny || t_abs(dx) >= Nx) continue;
             if (dy || dx) {
-                positions.push_back(is_erosion ? dy: -dy);
-                positions.push_back(is_erosion ? dx: -dx);
+                positions.push_back(dy);
+                positions.push_back(dx);
             }
         }
     }
@@ -187,41 +194,29 @@ void fast_binary_dilate_erode_2d(numpy::aligned_array<bool> res, const numpy::al
     if (positions.empty()) return;
 
     for (numpy::index_type y = 0; y != Ny; ++y) {
-        bool* const orow = res.data(y);
         for (numpy::index_type j = 0; j != N2; ++j) {
             numpy::index_type dy = positions[2*j];
-            numpy::index_type dx = positions[2*j + 1];
+            const numpy::index_type dx = positions[2*j + 1];
             assert(dx || dy);
             if ((y + dy) < 0) dy = -y;
             if ((y + dy) >= Ny) {
                 dy = -y+(Ny-1);
             }
-            bool* out = orow;
-            const bool* in = array.data(y + dy);
-            numpy::index_type n = Nx - t_abs(dx);
-            if (dx > 0) {
-                for (numpy::index_type i = 0; i != (dx-1); ++i) {
-                    if (is_erosion) {
-                        out[Nx-i-1] &= in[Nx-1];
-                    } else {
-                        out[Nx-i-1] |= in[Nx-1];
-                    }
-                }
-                in += dx;
-            } else if (dx < 0) {
-                for (numpy::index_type i = 0; i != -dx; ++i) {
-                    if (is_erosion) {
-                        out[i] &= in[0];
-                    } else {
-                        out[i] |= in[0];
-                    }
-                }
-                out += -dx;
-            }
+            // columns [x0, x1) have their neighbour x+dx inside the row
+            const numpy::index_type x0 = std::min<numpy::index_type>(Nx, std::max<numpy::index_type>(0, -dx));
+            const numpy::index_type x1 = std::max<numpy::index_type>(x0, std::min<numpy::index_type>(Nx, Nx - dx));
             if (is_erosion) {
-                for (numpy::index_type i = 0; i != n; ++i) *out++ &= *in++;
+                bool* const out = res.data(y);
+                const bool* const in = array.data(y + dy);
+                for (numpy::index_type x = 0; x != x0; ++x) out[x] &= in[0];
+                for (numpy::index_type x = x0; x != x1; ++x) out[x] &= in[x + dx];
+                for (numpy::index_type x = x1; x != Nx; ++x) out[x] &= in[Nx-1];
             } else {
-                for (numpy::index_type i = 0; i != n; ++i) *out++ |= *in++;
+                bool* const out = res.data(y + dy);
+                const bool* const in = array.data(y);
+                for (numpy::index_type x = 0; x != x0; ++x) out[0] |= in[x];
+                for (numpy::index_type x = x0; x != x1; ++x) out[x + dx] |= in[x];
+                for (numpy::index_type x = x1; x != Nx; ++x) out[Nx-1] |= in[x];
             }
         }
     }
